@@ -76,6 +76,10 @@ def recorded_patches(prop):
             continue
         if m.get("property") == prop:
             d = os.path.dirname(meta)
+            if m.get("expected_outcome") == "not-caught":
+                # a recorded miss (reason in meta.json and DESIGN.md): replayed to notice when it starts being reported
+                out.append({"name": "seeded-" + os.path.basename(d), "kind": "recorded-miss", "patch": os.path.join(d, "patch.diff")})
+                continue
             out.append({"name": "seeded-" + os.path.basename(d), "kind": "mutant", "patch": os.path.join(d, "patch.diff")})
     for pf in sorted(glob.glob(os.path.join(VERIF_ROOT, "refactors", "*.diff"))):
         out.append({"name": "refactor-" + os.path.basename(pf)[:-5], "kind": "refactoring", "patch": pf})
@@ -101,6 +105,8 @@ def _run_variant(args):
         except Exception as e:  # noqa: BLE001
             code, violations = 2, []
             lines = [f"ANALYSIS-ERROR internal {type(e).__name__}: {e}"]
+        if variant["kind"] == "recorded-miss":
+            return (variant["name"], "recorded-miss", "now reported" if violations else "still not reported (see meta.json)")
         if variant["kind"] == "mutant":
             exp_rule = variant.get("rule")
             exp_fn = variant.get("function")
